@@ -158,7 +158,7 @@ def kclass(ocls):
 
 class _A:
     """snapshot of one array operand"""
-    __slots__ = ("obj", "path", "dtype", "shape", "data", "uobj", "us", "root", "raw", "mask", "vals", "ocls", "skipped")
+    __slots__ = ("obj", "path", "dtype", "shape", "data", "uobj", "us", "root", "raw", "mask", "vals", "ocls", "skipped", "ro")
 
 
 class _U:
@@ -168,6 +168,7 @@ class _U:
 def snap_array(x, path, as_target, keep_vals):
     s = _A()
     s.obj = x; s.path = path; s.dtype = x.dtype; s.shape = x.shape; s.ocls = oclass(x); s.skipped = None
+    s.ro = not x.flags.writeable      # a target the caller is not allowed to write to: the call has to fail, leaving it as it was
     v = nd(x)
     s.data = None if v.dtype.kind == "O" else (v.tobytes() if v.nbytes <= MAX_ROOT else None)
     if s.data is None:
@@ -299,6 +300,10 @@ class Passive(taps.Observer):
         self.subject = None   # (object, dtype string, layout name) declared by an active driver: the operand of the current call whose exact
         #                       dtype and memory layout are the swept dimension; its comparison is recorded under the sub-monitor
         #                       'rescaled-operand' with those two as cell coordinates (never in keys)
+        self.spelled = None   # (object, spelling family, route, partner kind) declared by an active driver: the operand (array or Unit) of
+        #                       the current call that carries a unit written in a non-reduced compound spelling; its comparison is recorded
+        #                       under the sub-monitor 'spelled-operand' with those three as cell coordinates (never in keys)
+        self.ro_layout = None  # layout name of the read-only target of the current call, declared by an active driver (cell coordinate only)
         self._active_inplace = 0
         self._tool = None
         if raise_sites:
@@ -661,6 +666,9 @@ class Passive(taps.Observer):
         subj = self.subject
         if subj is not None and s.obj is subj[0]:
             cell = ("rescaled-operand", op, s.path, subj[1], subj[2], outcome)
+        spl = self.spelled
+        if spl is not None and s.obj is spl[0]:
+            cell = ("spelled-operand", op, s.path, spl[1], spl[2], spl[3], outcome)
         if isinstance(s, _U):
             now = usnap(s.obj)
             if not usnap_eq(s.us, now):
@@ -723,6 +731,11 @@ class Passive(taps.Observer):
     def _check_failed_target(self, op, s, ename):
         x = s.obj
         cell = ("failed-target", op, ename, s.ocls, getattr(self, "fault", None))
+        spl = getattr(self, "spelled", None)
+        if spl is not None and x is spl[0]:
+            cell = ("spelled-operand", op, "target", spl[1], spl[2], spl[3], "raised")
+        elif s.ro:
+            cell = ("read-only-target", op, ename, s.ocls, getattr(self, "ro_layout", None))
         bad = None
         u = getattr(x, "units", None)
         if s.us is not None or getattr(u, "is_Unit", False):
@@ -758,9 +771,16 @@ class Passive(taps.Observer):
                 self._note(f"numpy-alone-writes-out-then-raises:{op}:{ename}")
                 self._ok(("failed-target-numpy-semantics", op, ename, s.ocls))
                 return
-        if bad is not None:
+        if bad is not None and s.ro:
+            # what happens to a target the call may not write to is decided before the ufunc loop runs: one template per arity and
+            # ufunc method (not one key per ufunc), qualified by the dtype family of the target (integer targets are retyped first)
+            fam = kclass(s.ocls).replace("complex", "float")     # float and complex targets take the same path (no retyping), integers another
+            self._violation(f"C18:{_ro_template(op)}:failed-target-changed:{bad[0]}:{ename}:read-only-target:{fam}",
+                            f"{op} raised {ename} but its read-only target {s.path} ({s.ocls}) {bad[0]} was {bad[1]} before the call and is {bad[2]} afterwards",
+                            self._case(op, s, what=bad[0], before=bad[1], after=bad[2], exc=ename))
+        elif bad is not None:
             self._violation(f"C18:{op}:failed-target-changed:{bad[0]}:{ename}",
-                            f"{op} raised {ename} but its target {s.path} ({s.ocls}) {bad[0]} was {bad[1]} before the call and is {bad[2]} afterwards",
+                            f"{op} raised {ename} but its {'read-only ' if s.ro else ''}target {s.path} ({s.ocls}) {bad[0]} was {bad[1]} before the call and is {bad[2]} afterwards",
                             self._case(op, s, what=bad[0], before=bad[1], after=bad[2], exc=ename))
         elif ok_out:
             self._ok(cell)
@@ -925,6 +945,15 @@ class _Manual:
 TRANSCENDENTAL = {"sin", "cos", "tan", "arcsin", "arccos", "arctan", "arctan2", "sinh", "cosh", "tanh", "arcsinh", "arccosh", "arctanh", "exp",
                   "exp2", "expm1", "log", "log2", "log10", "log1p", "cbrt", "power", "float_power", "hypot", "logaddexp", "logaddexp2", "matmul",
                   "vecdot", "matvec", "vecmat", "deg2rad", "rad2deg", "degrees", "radians"}
+
+
+def _ro_template(op):
+    p = op.split("/")
+    if p[0] == "ufunc" and len(p) >= 3:
+        uf = getattr(np, p[1], None)
+        p[1] = {1: "unary", 2: "binary"}.get(getattr(uf, "nin", None), "nary")
+        return "/".join(p)
+    return op
 
 
 def _tolerant(op, dtype):
